@@ -9,7 +9,7 @@
     * `from_operator_repr` = documented tensor-product construction, entry by entry;
       composition / linearity laws of the matrix model                             (§8, §9)
     * the default observables are their definitions: bitstring probabilities, pure = mixed,
-      and the place where this tree's second moment / variance leave the definition   (§10)
+      occupation, energy second moment and variance on pure and mixed states          (§10)
 
   NOT decided by any theorem (smoke differential in the monitor, labelled a test):
   that the V2 backend hands the observables the right state at the right time — that is a
@@ -197,24 +197,31 @@ example :
     let H : Mat := Mat.ofLists 2 2 [[1, 1], [1, 2]]
     expectKet H psi = ⟨41/25, 0⟩ ∧ probsKet psi = [9/25, 16/25] := by decide +kernel
 
-/-- **New finding (energy second moment / variance on mixed states).**  What
-`EnergySecondMoment.apply` computes in this tree, `sqrt(Tr[(HρH†)²])`, is not `Tr[ρH²]` for a
-mixed state: maximally mixed qubit, `H = diag(1, 2)`: `17/4 ≠ (5/2)²`; likewise the subtrahend
-of `EnergyVariance.apply`, `Tr[ρ HρH†] = 5/4`, is not `Tr[ρH]² = 9/4`. -/
-theorem energy_moments_mixed_counterexample :
+/-- **Clause "energy Tr[ρH(t)], its second moment Tr[ρH(t)²] and variance … for pure and mixed
+states".**  What `EnergySecondMoment.apply` and `EnergyVariance.apply` compute in this tree
+(`identity.expect(HρH†)`, minus `hamiltonian.expect(state)²`) *is* `Tr[ρH²]`, resp.
+`Tr[ρH²] − Tr[ρH]²`, for every matrix `ρ` (pure or mixed) and every Hermitian `H`. -/
+theorem energy_moments_are_definitions (H rho : Mat) (n : Nat) (hHr : H.r = n) (hHc : H.c = n)
+    (hRc : rho.c = n) (herm : IsHermitian H n) :
+    secondMomentCodeDM H rho = secondMomentDM H rho ∧ varianceCodeDM H rho = varianceDM H rho :=
+  ⟨secondMomentCode_eq_def H rho n hHr hHc hRc herm, varianceCode_eq_def H rho n hHr hHc hRc herm⟩
+
+/-- Non-vacuity on the maximally mixed qubit, `H = diag(1, 2)`: `5/2` and `1/4`. -/
+example :
     let rho : Mat := Mat.ofLists 2 2 [[⟨1/2, 0⟩, 0], [0, ⟨1/2, 0⟩]]
     let H : Mat := Mat.ofLists 2 2 [[1, 0], [0, ⟨2, 0⟩]]
-    secondMomentDM H rho = ⟨5/2, 0⟩ ∧ secondMomentCodeSqDM H rho = ⟨17/4, 0⟩ ∧
-    energyDM H rho = ⟨3/2, 0⟩ ∧ varSubtrahendCodeDM H rho = ⟨5/4, 0⟩ := by
+    secondMomentCodeDM H rho = ⟨5/2, 0⟩ ∧ varianceCodeDM H rho = ⟨1/4, 0⟩ := by
   decide +kernel
 
-/-- On pure states the tree's formulas do coincide with the definitions — shown here on one
-instance only (PARTIAL: the general statement `Tr[(H|ψ⟩⟨ψ|H)²] = ⟨ψ|H²|ψ⟩²` is not proved). -/
-theorem energy_moments_pure_partial :
-    let rho := pureDM (ketMat [⟨3/5, 0⟩, ⟨0, 4/5⟩])
-    let H : Mat := Mat.ofLists 2 2 [[1, 1], [1, 2]]
-    secondMomentCodeSqDM H rho = secondMomentDM H rho * secondMomentDM H rho ∧
-    varSubtrahendCodeDM H rho = energyDM H rho * energyDM H rho := by
+/-- **Findings F25/F26 (repaired in the tree; a statement about the OLD formulas).**  What the
+tree computed before, `sqrt(Tr[(HρH†)²])`, is not `Tr[ρH²]` on a mixed state: maximally mixed
+qubit, `H = diag(1, 2)`: `17/4 ≠ (5/2)²`; likewise the old subtrahend `Tr[ρ HρH†] = 5/4` is not
+`Tr[ρH]² = 9/4`. -/
+theorem energy_moments_old_counterexample :
+    let rho : Mat := Mat.ofLists 2 2 [[⟨1/2, 0⟩, 0], [0, ⟨1/2, 0⟩]]
+    let H : Mat := Mat.ofLists 2 2 [[1, 0], [0, ⟨2, 0⟩]]
+    secondMomentDM H rho = ⟨5/2, 0⟩ ∧ secondMomentOldSqDM H rho = ⟨17/4, 0⟩ ∧
+    energyDM H rho = ⟨3/2, 0⟩ ∧ varSubtrahendOldDM H rho = ⟨5/4, 0⟩ := by
   decide +kernel
 
 /-- **Clause "occupation ⟨n_i⟩ … for pure and mixed states and any qudit dimension".**  The
